@@ -532,17 +532,44 @@ impl SimDevice for SimDisk {
         let lat = s.fsync_lat_ns;
         let make_durable = |s: &mut State| {
             let pending: Vec<PendingWrite> = std::mem::take(&mut s.unsynced);
-            let mut keep = Vec::new();
+            let mut keep: Vec<PendingWrite> = Vec::new();
             for w in pending {
                 if w.limbo {
                     keep.push(w);
                 } else {
                     let start = w.offset as usize;
                     s.durable[start..start + w.data.len()].copy_from_slice(&w.data);
+                    // A later write that is now durable has definitely replaced whatever an
+                    // earlier limbo write left in the same bytes: cut those bytes out of the
+                    // "may or may not be on the platter" set.
+                    let (a, b) = (w.offset, w.offset + w.data.len() as u64);
+                    let mut rest: Vec<PendingWrite> = Vec::new();
+                    for l in keep.drain(..) {
+                        let (la, lb) = (l.offset, l.offset + l.data.len() as u64);
+                        if l.event > w.event || lb <= a || la >= b {
+                            rest.push(l);
+                            continue;
+                        }
+                        if la < a {
+                            rest.push(PendingWrite {
+                                offset: la,
+                                data: l.data[..(a - la) as usize].to_vec(),
+                                event: l.event,
+                                limbo: true,
+                            });
+                        }
+                        if lb > b {
+                            rest.push(PendingWrite {
+                                offset: b,
+                                data: l.data[(b - la) as usize..].to_vec(),
+                                event: l.event,
+                                limbo: true,
+                            });
+                        }
+                    }
+                    keep = rest;
                 }
             }
-            // A limbo write that is entirely overwritten by later durable data is resolved;
-            // otherwise it stays "maybe on the platter".
             s.unsynced = keep;
         };
         let result = match fault {
